@@ -310,7 +310,7 @@ func prepareKeepState(c c07Case, newH func() *host, nc *int) *host {
 	return r
 }
 
-var snapScriptOpts = scriptOpts{maxNodes: 4, maxDepth: 3, maxBody: 4, tracking: true, visitText: true, enterProbe: true, endWithJump: 3, firstLine: true,
+var snapScriptOpts = scriptOpts{maxNodes: 4, maxDepth: 3, maxBody: 4, tracking: true, visitText: true, enterProbe: true, endWithJump: 3, firstLine: true, shadow: true,
 	extraStmt: func(g *scriptGen, depth int) *Stmt {
 		switch rapid.IntRange(0, 5).Draw(g.t, "snapstmt") {
 		case 5:
